@@ -1,6 +1,6 @@
 // Package c09v is stage 1 of property C09 (E3, small scope): Rollout specs are enumerated exhaustively from field
-// alphabets at the JSON level, passed through the API server's own CRD pruning / defaulting / schema validation (real
-// CRD, real apiextensions code) and sent as admission requests (CREATE, and UPDATE against an old object in every
+// alphabets at the JSON level, passed through CRD defaulting / schema validation (the real generated CRD, interpreted
+// by schema.go) and sent as admission requests (CREATE, and UPDATE against an old object in every
 // phase) through the repository's real validating handler, for v1beta1 and v1alpha1. On the accepted set the
 // structural promises the controllers rely on are checked against a small reference reading of the same JSON.
 package c09v
@@ -229,7 +229,9 @@ func buildDomains(ver string, thorough bool, accept func(*Case) bool) []*domain 
 			}
 			wn, tn, sn := W[ix[2]].name, T[ix[3]].name, kNames[ix[4]]
 			return &Case{Ver: ver, Op: "CREATE", Object: c.obj(""), Store: others(ver, ix[4], c.wref),
-				noteFn: func() string { return fmt.Sprintf("%s %s ref=%s tr=%s store=%s", listNote(sa, absent, idx), kn, wn, tn, sn) }}
+				noteFn: func() string {
+					return fmt.Sprintf("%s %s ref=%s tr=%s store=%s", listNote(sa, absent, idx), kn, wn, tn, sn)
+				}}
 		}})
 
 	// ---- UPDATE: old object (accepted as CREATE) in every phase; new = old with one field group replaced ----
@@ -341,10 +343,10 @@ func Run(r *lib.Report) {
 	}
 	r.Rule = "inputs are admission requests {version, operation, object, old object, other Rollouts in the store}; objects are composed at the JSON level as products of per-field alphabets " +
 		"(domains: CREATE/steps = every step list of length 0..3 x strategy kind x workload class; CREATE/shape = strategy kind x every workloadRef x every trafficRoutings x every store configuration; " +
-		"UPDATE = every accepted old object x 7 phases x every single-field-group replacement); each object passes the real CRD pruning/defaulting/schema validation and then the real RolloutCreateUpdateHandler.Handle with a fake client; " +
+		"UPDATE = every accepted old object x 7 phases x every single-field-group replacement); each object passes the defaulting and validation of the real CRD schema and then the real RolloutCreateUpdateHandler.Handle with a fake client; " +
 		"non-trivial = distinct schema-admissible requests the handler decoded and decided"
 	r.Assumptions = []string{
-		"API reachability: an object the CRD schema (config/crd/bases/rollouts.kruise.io_rollouts.yaml, evaluated with k8s.io/apiextensions-apiserver) rejects never reaches the webhook; such requests are still sent but nothing is demanded of them",
+		"API reachability: an object the CRD schema (config/crd/bases/rollouts.kruise.io_rollouts.yaml; interpreted by checks/c09v/schema.go, which supports exactly the keywords used there and refuses any other) rejects never reaches the webhook; such requests are still sent but nothing is demanded of them",
 		"the store holds the other Rollouts in the version of the request (the API server converts on read; conversion itself is C20)",
 		"oldObject of an UPDATE equals the stored object (as the API server guarantees); old objects are taken from the set the handler accepts as CREATE",
 		"steps non-empty: the strategy block in force (blueGreen if present, else canary) has >= 1 step",
@@ -355,21 +357,21 @@ func Run(r *lib.Report) {
 		"immutability: demanded only when the STORED object is Progressing or Terminating; a change is a difference of workloadRef, of the trafficRoutings list in force (absent == empty), of the number of steps in force, or of the EFFECTIVE rolling style (blueGreen / canary = extra workload for an apps Deployment / partition otherwise; v1alpha1: from the rolling-style annotation) — toggling the canary flag on a workload that is released by partition anyway is not demanded to be rejected",
 		"helpers: v1alpha1 objects are converted with the real ConvertTo first; a failing conversion is C20's subject and only recorded",
 	}
-	r.TrustedBase = []string{"controller-runtime fake client and admission decoder", "k8s.io/apiextensions-apiserver structural schema pruning, defaulting and validation", "the 60-line reference reading of a Rollout in oracle.go"}
+	r.TrustedBase = []string{"controller-runtime fake client and admission decoder", "the CRD schema interpreter in schema.go (type, required, properties, items, additionalProperties, default, enum, pattern, min/maxLength, maxItems, format int32/int64/date-time, int-or-string, list-type map/set)", "the 60-line reference reading of a Rollout in oracle.go"}
 
 	old := debug.SetGCPercent(400)
 	defer debug.SetGCPercent(old)
 
 	// per-worker accumulators (no shared lock on the hot path), merged after each domain
 	type acc struct {
-		outcomes    map[string]int64
-		antecedents map[string]int64
-		nontrivial  []uint64
-		wit         map[string]*witness
-		accepted, rejected, inadmissible, panics int64
-		samples     map[string]interface{}
-		sampleSeq   map[string]int64
-		err         error
+		outcomes                                          map[string]int64
+		antecedents                                       map[string]int64
+		nontrivial                                        []uint64
+		wit                                               map[string]*witness
+		accepted, rejected, inadmissible, panics, helpers int64
+		samples                                           map[string]interface{}
+		sampleSeq                                         map[string]int64
+		err                                               error
 	}
 	newAcc := func() *acc {
 		return &acc{outcomes: map[string]int64{}, antecedents: map[string]int64{}, wit: map[string]*witness{}, samples: map[string]interface{}{}, sampleSeq: map[string]int64{}}
@@ -395,6 +397,9 @@ func Run(r *lib.Report) {
 				a.panics++
 			case res.accepted:
 				a.accepted++
+				if res.helpers {
+					a.helpers++
+				}
 			default:
 				a.rejected++
 			}
@@ -472,6 +477,7 @@ func Run(r *lib.Report) {
 		dst.rejected += src.rejected
 		dst.inadmissible += src.inadmissible
 		dst.panics += src.panics
+		dst.helpers += src.helpers
 		if dst.err == nil {
 			dst.err = src.err
 		}
@@ -567,6 +573,7 @@ func Run(r *lib.Report) {
 	wit := total.wit
 	antecedents := total.antecedents
 	r.Extra["domains"] = domainStats
+	r.Extra["accepted_objects_run_through_controller_helpers"] = total.helpers
 	r.Extra["oracle_antecedents"] = antecedents
 	// every protected change / conflict class must have been exercised, otherwise the oracle was vacuous
 	for _, ver := range []string{"v1beta1", "v1alpha1"} {
